@@ -157,6 +157,47 @@ Theorem C13_cm_pulse_is_model : forall d thr evs Vs dts om bs ns nc,
 Proof. exact cm_pulse_is_model. Qed.
 Print Assumptions C13_cm_pulse_is_model.
 
+(* ============================== filter functions and infidelity under re-segmentation ============================== *)
+(* split_masked d thr om ev a b o: no entry of the three segment integrals (a+b, a, b) is on the Taylor branch at omega[o];
+   column_local na nk no phi: phi B o depends on the control matrix B only through its entries [.][.][o]. *)
+
+Theorem C13_split_segment_ff : forall d thr P1 P2 ev V a b ncg om bs ns j j' o,
+  0 <= thr -> (j < length ns)%nat -> (j' < length ns)%nat -> (o < length om)%nat ->
+  feq d (fmul d (fadj (toF V)) (toF V)) fid -> split_masked d thr om ev a b o ->
+  a3get RO (filter_function RO (length ns) (length bs) (length om)
+              (cm_pulse d thr (P1 ++ (ev, V, a + b, ncg) :: P2) om bs ns)) j j' o =
+  a3get RO (filter_function RO (length ns) (length bs) (length om)
+              (cm_pulse d thr (P1 ++ (ev, V, a, ncg) :: (ev, V, b, ncg) :: P2) om bs ns)) j j' o.
+Proof. exact split_segment_ff. Qed.
+Print Assumptions C13_split_segment_ff.
+
+(* Any column-wise quantity integrated with the trapezoidal rule (infidelity with or without the identity term, decay
+   amplitudes, ...) is unchanged by a split / merge when the grid avoids the small-denominator windows. *)
+Theorem C13_split_segment_integral : forall d thr P1 P2 ev V a b ncg om bs ns (phi : Arr3 (T:=R) -> nat -> R),
+  0 <= thr -> column_local (length ns) (length bs) (length om) phi ->
+  feq d (fmul d (fadj (toF V)) (toF V)) fid ->
+  (forall o, (o < length om)%nat -> split_masked d thr om ev a b o) ->
+  trapz RO (build (length om) (phi (cm_pulse d thr (P1 ++ (ev, V, a + b, ncg) :: P2) om bs ns))) om =
+  trapz RO (build (length om) (phi (cm_pulse d thr (P1 ++ (ev, V, a, ncg) :: (ev, V, b, ncg) :: P2) om bs ns))) om.
+Proof. exact split_segment_integral. Qed.
+Print Assumptions C13_split_segment_integral.
+
+Theorem C13_split_segment_infidelity : forall d thr P1 P2 ev V a b ncg om bs ns (S : nat -> R) j,
+  0 <= thr -> (j < length ns)%nat -> feq d (fmul d (fadj (toF V)) (toF V)) fid ->
+  (forall o, (o < length om)%nat -> split_masked d thr om ev a b o) ->
+  let F P := filter_function RO (length ns) (length bs) (length om) (cm_pulse d thr P om bs ns) in
+  trapz RO (build (length om) (fun o => S o * fst (a3get RO (F (P1 ++ (ev, V, a + b, ncg) :: P2)) j j o))) om =
+  trapz RO (build (length om) (fun o => S o * fst (a3get RO (F (P1 ++ (ev, V, a, ncg) :: (ev, V, b, ncg) :: P2)) j j o))) om.
+Proof. exact split_segment_infidelity. Qed.
+Print Assumptions C13_split_segment_infidelity.
+
+Theorem C13_zero_duration_insert_ff : forall d thr P1 P2 ev V ncg om bs ns,
+  feq d (fmul d (toF V) (fadj (toF V))) fid ->
+  filter_function RO (length ns) (length bs) (length om) (cm_pulse d thr (P1 ++ (ev, V, 0, ncg) :: P2) om bs ns) =
+  filter_function RO (length ns) (length bs) (length om) (cm_pulse d thr (P1 ++ P2) om bs ns).
+Proof. exact zero_duration_insert_ff. Qed.
+Print Assumptions C13_zero_duration_insert_ff.
+
 (* ============================== linearity ============================== *)
 
 (* Noise operator j = al N_j1 + be N_j2 with the same sensitivities: row j = al row j1 + be row j2. *)
